@@ -79,6 +79,10 @@ def gen_case(rng, idx):
             else: fn = rng.choice(['flagged', 'k3']); custom.append((fn, fn, 'true', 'bool:1'))
         seen = set(); custom = [c for c in custom if not (c[1] in seen or seen.add(c[1]))]
         if custom: attrs.append('fields(%s)' % ', '.join('%s = %s' % (c[0], c[2]) for c in custom))
+    # async-trait style: a plain fn whose tail is `Box::pin(async move { … })`, with a statement before the tail — the attribute
+    # must recognise the shape and instrument the async block (only by-value parameters: no lifetimes in the boxed future's type;
+    # no ret / err, so that the pair still compiles if the shape is NOT recognised and the difference shows in the log)
+    boxed = is_async and not generic and not any(('&' in (p.decl or '')) for p in ps) and rng.random() < 0.4
     # ---- return shape
     shape = rng.choice(['unit', 'value', 'ok', 'err', 'question', 'panic', 'early', 'impl'] if not is_async else ['unit', 'value', 'ok', 'err', 'question', 'panic', 'early'])
     base = nums[0].name if nums else None
@@ -88,7 +92,7 @@ def gen_case(rng, idx):
     tail = {'unit': '', 'value': valexpr, 'ok': 'Ok(%s)' % valexpr, 'err': 'Err(MyErr(%d))' % (val % 97), 'question': 'let v = helper(%s)?; Ok(v + 1)' % valexpr,
             'panic': 'panic!("boom %d")' % (val % 13), 'early': 'if %s > 0 { return 7; } %s' % (valexpr, valexpr), 'impl': valexpr}[shape]
     ret = err = None
-    if shape != 'panic' and rng.random() < 0.5:
+    if shape != 'panic' and rng.random() < 0.5 and not boxed:
         mode = rng.choice(['', 'Display', 'Debug']) if shape in ('value', 'ok', 'question', 'early', 'err') else rng.choice(['', 'Debug'])
         if shape == 'impl': mode = rng.choice(['', 'Debug'])
         if shape == 'unit': mode = rng.choice(['', 'Debug'])
@@ -96,7 +100,7 @@ def gen_case(rng, idx):
         inner = ', '.join(x for x in [mode, ('level = "%s"' % lv) if lv else ''] if x)
         attrs.append('ret(%s)' % inner if inner else 'ret'); ret = (mode or 'Debug', lv)
     need_err = ret is not None and ret[0] == 'Display' and shape in ('ok', 'err', 'question')     # Display of a whole Result does not exist
-    if shape in ('ok', 'err', 'question') and (need_err or rng.random() < 0.6):
+    if shape in ('ok', 'err', 'question') and (need_err or rng.random() < 0.6) and not boxed:
         mode = rng.choice(['', 'Display', 'Debug']); lv = rng.choice([None, None, 'info'])
         inner = ', '.join(x for x in [mode, ('level = "%s"' % lv) if lv else ''] if x)
         attrs.append('err(%s)' % inner if inner else 'err'); err = (mode or 'Display', lv)
@@ -111,11 +115,18 @@ def gen_case(rng, idx):
     kw = 'async fn' if is_async else 'fn'
     gen = '<T: std::fmt::Debug>' if generic else ''
     decls = ', '.join(p.decl for p in ps)
+    # async-trait style: a plain fn whose tail is `Box::pin(async move { … })`, with a statement before the tail — the attribute
+    # must recognise the shape and instrument the async block (only by-value parameters: no lifetimes in the boxed future's type)
+
     pre = ' '.join(p.pre for p in ps if p.pre)
     args = ', '.join(p.arg for p in ps)
     call_i = 'f_inst(%s)' % args; call_p = 'f_plain(%s)' % args
     if is_async: call_i = 'drive(%s)' % call_i; call_p = 'drive(%s)' % call_p
     body_src = '\n        '.join(body)
+    if boxed:
+        kw = 'fn'
+        body_src = 'fx("pre");\n        Box::pin(async move {\n        ' + body_src + '\n        })'
+        ret_ty = 'std::pin::Pin<Box<dyn std::future::Future<Output = %s>>>' % ret_ty
     src = '''mod case_%d {
     #![allow(unused_variables, unused_mut, unreachable_code, clippy::all)]
     use super::c17_rt::*;
@@ -224,7 +235,7 @@ PROPERTY = {
                 "name, level, target, parent, skip, fields with expressions over arguments, ret/err with modes and levels; the collector's log is diffed against the model and the twins are judged equal in result, panic payload and "
                 "side effects under a collector and under none.",
         'note': "Trusted: Lean kernel; propext/Classical.choice/Quot.sound; the behaviour-preservation clause is judged on the compiled twins (result, payload, effect multiset incl. drop counts), it is not a theorem about Rust "
-                "semantics; follows_from, self receivers and async-trait style boxed futures are not generated. Known finding F27: skip_all is not recognised by this version (compile warning; every argument is recorded). "
+                "semantics; follows_from and self receivers are not generated; async-trait style functions (`Box::pin(async move { … })` tail after a statement) are. Known finding F27: skip_all is not recognised by this version (compile warning; every argument is recorded). "
                 "Repaired: the duplicate-argument checks of parent / follows_from tested args.target (a3634c9).",
         'technique': 'Lean 4 proof (list reasoning over extracted expansion facts) + generated, compiled corpus of instrumented/plain twins diffed against the model and against each other',
     },
